@@ -6,9 +6,15 @@ package oauth2
 // code). Comment-only: no code; visible only with the build tag "verif".
 //
 //@ func (*OAuth2).End
-//@   property C01 C03 C14 C18
+//@   property C01 C03 C14 C15 C18
 //@   let provider = str_lower(filepath_base(r.URL.Path))
 //@   invariant loop#1 ctx_user_kept: ctxuser(r) == user
+//@   invariant loop#1 redirect_local: redirect == o.Config.Paths.OAuth2LoginOK || !offsite(redirect)
+//@   -- C15: the redirect parameter carried through the OAuth2 round trip never takes the
+//@   -- browser off-site: the target is the configured page or a value no browser resolves
+//@   -- to another origin (plus pass-through query)
+//@   ensures[C15] oauth_passthrough: each Redirect(?ro) => before Store.SaveOAuth2(_) ==>
+//@       (prefixof(o.Config.Paths.OAuth2LoginOK, ro.RedirectPath) || !offsite(ro.RedirectPath))
 //@   -- C14: nothing happens unless this browser's session holds a state and the
 //@   -- callback carries exactly that value
 //@   ensures[C14,C01] state_guard:
